@@ -34,8 +34,8 @@ def cancellable_variant():
 
 class Cancellable(Unit):
     name = "cancellable"; driver = "k1_cancellable"; cfg = "shim17"; handler = "cancellable"
-    maxruns = {"quick": 1500, "thorough": 60000}
-    nrandom = {"quick": 200, "thorough": 3000}
+    maxruns = {"quick": 4000, "thorough": 60000}
+    nrandom = {"quick": 300, "thorough": 3000}
     def programs(self, tier):
         progs = []
         for m in ("late", "early"):
